@@ -1027,7 +1027,12 @@ pub fn pow<E: Copy, T: FastPow<E>>(
     base: TensorView<T>,
     exp: TensorView<E>,
 ) -> Result<Tensor<T>, OpError> {
-    if let Some(&exp) = exp.item() {
+    // The scalar fast path produces an output with the shape of `base`. This
+    // matches the broadcast shape only if `exp` does not have more dims.
+    let exp_ndim = exp.ndim();
+    if let Some(&exp) = exp.item()
+        && exp_ndim <= base.ndim()
+    {
         Ok(base.map_in(pool, |x| x.fast_pow(exp)))
     } else {
         binary_op(pool, base, exp, &|b: T, e: E| b.fast_pow(e))
